@@ -109,12 +109,21 @@ def body(ck):
             dropped += 1
             continue
         rew = jnp.asarray([r for r, _, _ in rows]); val = jnp.asarray([v for _, v, _ in rows]); don = jnp.asarray([d for _, _, d in rows])
+        # the constructor takes array-likes: episode-end flags also arrive as 0/1 integers (rollouts assembled in NumPy / from Gymnasium)
+        flag_form = ["bool", "bool", "int32", "numpy-int64", "bool", "uint8"][len(cases) % 6]
+        if flag_form == "int32":
+            don = don.astype(jnp.int32)
+        elif flag_form == "numpy-int64":
+            don = np.asarray([int(d) for _, _, d in rows], dtype=np.int64)
+        elif flag_form == "uint8":
+            don = don.astype(jnp.uint8)
+        ck.count("done-flags-as:" + flag_form)
         adv, ret = run1(rew, val, don, jnp.asarray(last), l, g)
         adv = np.asarray(adv); ret = np.asarray(ret)
         if not (np.all(np.isfinite(adv)) and np.all(np.isfinite(ret))):
             adv = np.nan_to_num(adv, nan=12345.0, posinf=12345.0, neginf=12345.0); ret = np.nan_to_num(ret, nan=12345.0, posinf=12345.0, neginf=12345.0)
         cases.append(case_lit(g, l, last, rows, adv, ret))
-        j = {"api": "RolloutBuffer.compute_returns_and_advantages", "gamma": g, "lambda": l, "last_value": last,
+        j = {"api": "RolloutBuffer.compute_returns_and_advantages", "done_flags_passed_as": flag_form, "gamma": g, "lambda": l, "last_value": last,
              "rows[reward,value,done]": rows, "impl_advantages": adv.tolist(), "impl_returns": ret.tolist()}
         cj.append(j)
         T = len(rows)
